@@ -277,13 +277,16 @@ fn run(ctx: &mut Ctx) {
     let (la, lb) = if quick { (2, 1) } else { (2, 2) };
     let sa = sequences(&alphabet, la);
     let sb = sequences(&alphabet, lb);
+    let mut pair_index = 0u64;
     for x in &sa {
         for y in &sb {
             let (a, b) = (program_of(x), program_of(y));
             add_case(ctx, &a, &b);
-            if la != lb {
+            // the reversed pair (short A, long B): all of them in thorough, every third in quick
+            if la != lb && (!quick || pair_index % 3 == 0 || x.len() < 2) {
                 add_case(ctx, &b, &a);
             }
+            pair_index += 1;
         }
     }
 
